@@ -48,6 +48,7 @@ type Vm struct {
 	pg            *render.Page      // Render outputs with menues to size constraints
 	menuSeparator string            // Passed to Menu.WithSeparator if not empty
 	last          string            // Last failed LOAD/RELOAD attempt
+	catching      bool              // The instruction being executed is the MOVE _catch injected by runErrCheck
 }
 
 // NewVm creates a new Vm.
@@ -206,6 +207,7 @@ func (vm *Vm) Run(ctx context.Context, b []byte) ([]byte, error) {
 // handles errors that should not be deferred to the client.
 func (vm *Vm) runErrCheck(ctx context.Context, b []byte, err error) ([]byte, error) {
 	if err == nil {
+		vm.catching = false
 		return b, err
 	}
 	vm.pg = vm.pg.WithError(err)
@@ -214,6 +216,13 @@ func (vm *Vm) runErrCheck(ctx context.Context, b []byte, err error) ([]byte, err
 	if !v {
 		return b, err
 	}
+
+	if vm.catching {
+		// the move to the catch node is what failed; trying it again cannot succeed
+		vm.catching = false
+		return b, err
+	}
+	vm.catching = true
 
 	b = NewLine(nil, MOVE, []string{"_catch"}, nil, nil)
 	return b, nil
